@@ -351,6 +351,15 @@ retry:
                     goto retry; // NOLINT
                 }
             }
+            if (!right_to_left && initial_size_of_tuple_list != 0 &&
+                !(std::get<0>(tuple_list[initial_size_of_tuple_list - 1]) <
+                  full_key)) {
+                // The key was already produced from a node further left: that
+                // node was emptied and unlinked meanwhile (its key range fell
+                // to this node) and the key was inserted again. Keep the
+                // result strictly ascending.
+                continue;
+            }
             auto in_range = [&full_key, &tuple_list, &vp, &node_version_vec,
                              &v_at_fb, &node_version_ptr, &tuple_pushed_num,
                              max_size]() {
